@@ -165,7 +165,8 @@ class DateTimestampProvider(MorphingProvider):
                 if data is None:
                     raise TypeLoadError(Union[int, float], data)
 
-                return date.fromtimestamp(data)  # noqa: DTZ012
+                # the dumper produces midnight UTC, so the timestamp is read in UTC as well (not in the local time zone)
+                return datetime.fromtimestamp(data, tz=timezone.utc).date()
             except TypeError:
                 raise TypeLoadError(Union[int, float], data)
             except ValueError:
@@ -178,9 +179,12 @@ class DateTimestampProvider(MorphingProvider):
 
         def pydate_timestamp_loader(data):
             try:
-                return date.fromtimestamp(data)  # noqa: DTZ012
+                # the dumper produces midnight UTC, so the timestamp is read in UTC as well (not in the local time zone)
+                return datetime.fromtimestamp(data, tz=timezone.utc).date()
             except TypeError:
                 raise TypeLoadError(Union[int, float], data)
+            except ValueError:
+                raise ValueLoadError("Unexpected value", data)
             except (OverflowError, OSError):  # OSError is raised on failure of the platform localtime() / gmtime()
                 raise ValueLoadError(
                     "Timestamp is out of the range of supported values",
